@@ -8,6 +8,7 @@ import RelicVerif.Model.Md
 import RelicVerif.Model.Bc
 import RelicVerif.Model.ShaStream
 import RelicVerif.Model.Blake2s
+import RelicVerif.Model.Rijndael
 
 namespace Driver.C14
 open Driver Driver.C15 Relic.Spec Relic.Model
@@ -172,16 +173,23 @@ def handle (op : String) (args : List String) : Option Verdict :=
     let p ← parseBytes p
     -- spec: FIPS 197 + SP 800-38A + PKCS#7 whenever key size is valid and the buffer is large enough
     let ok := (k.length = 16 ∨ k.length = 24 ∨ k.length = 32) ∧ cap ≥ p.length + (16 - p.length % 16)
-    some { model := optBytes (Bc.bcAesCbcEnc aesE cap p k iv),
-           spec := [if ok then fmtBytes (Aes.aesCbcPkcs7Enc k iv p) else "err"] }
+    -- model: padEncrypt around the table-driven rijndaelKeySetupEnc / rijndaelEncrypt (tables extracted from the C text);
+    -- spec: FIPS 197 cipher under SP 800-38A CBC and PKCS#7
+    let nblk := p.length / 16 + 1
+    some { model := optBytes (Bc.bcAesCbcEnc Rijndael.aesE cap p k iv),
+           spec := [if ok then fmtBytes (Aes.aesCbcPkcs7Enc k iv p) else "err"],
+           tags := ["aes-enc-key" ++ toString (8 * k.length), if p.length % 16 = 0 then "aes-enc-full-pad-block" else "aes-enc-partial-pad",
+                    if nblk = 1 then "aes-enc-one-block" else "aes-enc-multi-block"] }
   | "aes_dec", [cap, k, iv, c] => do
     let cap ← cap.toNat?
     let k ← parseBytes k
     let iv ← parseBytes iv
     let c ← parseBytes c
     let ok := (k.length = 16 ∨ k.length = 24 ∨ k.length = 32) ∧ cap ≥ c.length
-    some { model := optBytes (Bc.bcAesCbcDec aesD cap c k iv),
-           spec := [if ok then optBytes (Aes.aesCbcPkcs7Dec k iv c) else "err"] }
+    let sp := if ok then optBytes (Aes.aesCbcPkcs7Dec k iv c) else "err"
+    some { model := optBytes (Bc.bcAesCbcDec Rijndael.aesD cap c k iv),
+           spec := [sp],
+           tags := ["aes-dec-key" ++ toString (8 * k.length), if sp == "err" then "aes-dec-rejected" else "aes-dec-accepted"] }
   | _, _ => none
 
 end Driver.C14
